@@ -71,7 +71,7 @@ def run(ctx):
               "(b) fits with every init option: objective(result) not worse than objective(init) as recorded at the optimiser "
               "call, LMNN accepted objectives non-increasing, zero iterations return the initialisation.  non-trivial = more "
               "than one class / non-constant targets.")
-  ctx.trusted = ["Coq 8.16.1 kernel + vm_compute", "documented objectives Model/Objectives.v", "Base/FExp.v: exp on binary64 (accuracy ~1e-12, validated against numpy per run)",
+  ctx.trusted = ["text pins tools/translate_pins.py (NCA / MLKR / LMNN fit, loss and gradient functions)", "Coq 8.16.1 kernel + vm_compute", "documented objectives Model/Objectives.v", "Base/FExp.v: exp on binary64 (accuracy ~1e-12, validated against numpy per run)",
                  "oracle: scipy L-BFGS-B; target neighbours (Euclidean k-NN within class) recomputed by brute force",
                  "gradients are certified per instance by finite differences, not by a theorem"]
   ok = ctx.build_property()
